@@ -152,12 +152,12 @@ def _install():
     codetf_mod.open = lambda name, *a, **k: _W(name)
 
 
-def _args(n_sarif, has_sonar, has_dd, has_output, dry_run, empty_name=False):
+def _args(n_sarif, has_sonar, has_dd, has_output, dry_run, empty_name=False, hotspots=False):
     return types.SimpleNamespace(
         directory="D", verbose=False, log_format=None, project_name=None,
         sarif=["S%d" % i for i in range(n_sarif)] or None,
         # `--sonar-issues-json=J1,` (trailing comma) yields an empty file name: a result file that does not exist
-        sonar_issues_json=(["J1", ""] if empty_name else ["J1"]) if has_sonar else None, sonar_hotspots_json=None,
+        sonar_issues_json=(["J1", ""] if empty_name else ["J1"]) if has_sonar else None, sonar_hotspots_json=["J3"] if hotspots else None,
         defectdojo_findings_json=["J2"] if has_dd else None,
         dry_run=dry_run, path_include=[], path_exclude=[], max_workers=1,
         codemod_include=None, codemod_exclude=None, output="OUT" if has_output else None,
@@ -172,14 +172,14 @@ def _tool(i: int) -> int:
     return 2
 
 
-def run_status_inputs(dir_exists: bool, n_sarif: int, t0: int, t1: int, e0: bool, e1: bool, has_sonar: bool, sonar_exists: bool, has_dd: bool, dd_exists: bool, empty_name: bool) -> bool:
+def run_status_inputs(dir_exists: bool, n_sarif: int, t0: int, t1: int, e0: bool, e1: bool, has_sonar: bool, sonar_exists: bool, has_dd: bool, dd_exists: bool, empty_name: bool, hotspots: bool) -> bool:
     """run(): status for every combination of target-directory / result-file conditions (AI settings consistent,
     report writable): 1 iff the directory or a supplied result file is missing or two SARIF inputs come from the
     same tool (an empty file name produced by a trailing comma counts as a missing file), else 0 and the report is written.
     pre: 0 <= n_sarif <= 2
     post: _
     """
-    return run_status(dir_exists, n_sarif, t0, t1, e0, e1, has_sonar, sonar_exists, has_dd, dd_exists, 0, 0, 0, 0, True, True, False, empty_name)
+    return run_status(dir_exists, n_sarif, t0, t1, e0, e1, has_sonar, sonar_exists, has_dd, dd_exists, 0, 0, 0, 0, True, True, False, empty_name, hotspots)
 
 
 def run_status_ai_report(sonar_missing: bool, az_key: int, az_ep: int, ll_key: int, ll_ep: int, has_output: bool, report_writable: bool, dry_run: bool) -> bool:
@@ -193,14 +193,15 @@ def run_status_ai_report(sonar_missing: bool, az_key: int, az_ep: int, ll_key: i
 
 def run_status(dir_exists: bool, n_sarif: int, t0: int, t1: int, e0: bool, e1: bool, has_sonar: bool, sonar_exists: bool,
                has_dd: bool, dd_exists: bool, az_key: int, az_ep: int, ll_key: int, ll_ep: int,
-               has_output: bool, report_writable: bool, dry_run: bool, empty_name: bool = False) -> bool:
+               has_output: bool, report_writable: bool, dry_run: bool, empty_name: bool = False, hotspots: bool = False, check_eligibility: bool = False) -> bool:
     """codemodder.run(): the returned status is the documented one for the condition that applies (1: missing
     directory / missing result file / two SARIF inputs of the same tool; 3: inconsistent AI-client settings; 2:
     report cannot be written; else 0); a non-zero status is never returned for a run whose report was written;
     status 0 with --output means the report was written; --dry-run reaches the execution context.
     (helper: the contracts are on run_status_inputs / run_status_ai_report)"""
     _install()
-    ENV.exists = {"D": dir_exists, "S0": e0, "S1": e1, "J1": sonar_exists, "J2": dd_exists}
+    ENV.exists = {"D": dir_exists, "S0": e0, "S1": e1, "J1": sonar_exists, "J2": dd_exists, "J3": True}
+    ENV.match_args = None
     ENV.sarif_tool = {"S0": _tool(t0), "S1": _tool(t1)}
     ENV.env = {}
     # each variable: 0 absent, 1 exported but empty (counts as not configured), 2 set
@@ -224,7 +225,7 @@ def run_status(dir_exists: bool, n_sarif: int, t0: int, t1: int, e0: bool, e1: b
             return []
 
     cm.CodemodExecutionContext = Ctx
-    cm.parse_args = lambda argv, reg: _args(n_sarif, has_sonar, has_dd, has_output, dry_run, empty_name)
+    cm.parse_args = lambda argv, reg: _args(n_sarif, has_sonar, has_dd, has_output, dry_run, empty_name, hotspots)
     got = cm.run(["D"])
 
     applicable = set()
@@ -252,7 +253,22 @@ def run_status(dir_exists: bool, n_sarif: int, t0: int, t1: int, e0: bool, e1: b
         ok = ok and WRITTEN == []
     if captured:
         ok = ok and captured[0].dry_run == dry_run
+    if check_eligibility and ENV.match_args is not None:
+        # C17 (asserted only on behalf of C17's eligibility obligation, never by a C20 obligation): tool-specific codemods are the eligible set exactly when Sonar issue files or SARIF files are supplied
+        a, k = ENV.match_args
+        sast_only = k.get("sast_only", a[2] if len(a) > 2 else False)
+        ok = ok and bool(sast_only) == (has_sonar or n_sarif > 0)
     return fin(ok)
+
+
+def _eligibility(n_sarif, t0, has_sonar, has_dd, hotspots):
+    """Plain helper (no contract) for C17's eligibility obligation: every input exists, settings consistent."""
+    TWIN_SAFE = run_status.__globals__["fin"]
+    run_status.__globals__["fin"] = lambda x=True: x
+    try:
+        return run_status(True, n_sarif, t0, 0, True, True, has_sonar, True, has_dd, True, 0, 0, 0, 0, True, True, False, False, hotspots, True)
+    finally:
+        run_status.__globals__["fin"] = TWIN_SAFE
 
 
 VECTORS = [
@@ -317,8 +333,8 @@ def planted_status_dropped(report_writable: bool) -> bool:
 
 
 def warmup():
-    run_status_inputs(True, 2, 0, 1, True, True, True, True, True, True, False)
-    run_status_inputs(True, 0, 0, 1, True, True, True, True, False, True, True)
+    run_status_inputs(True, 2, 0, 1, True, True, True, True, True, True, False, False)
+    run_status_inputs(True, 0, 0, 1, True, True, True, True, False, True, True, True)
     run_status_ai_report(False, 2, 2, 0, 1, True, True, True)
     run_status(True, 2, 0, 1, True, True, True, True, True, True, 2, 2, 0, 0, True, True, True)
     run_status(True, 1, 0, 1, True, True, False, True, False, True, 2, 1, 0, 0, True, False, False)
